@@ -1,8 +1,13 @@
 //! goml-verif: runtime-monitoring harness for lijunchen/goml (see /verif/DESIGN.md).
 mod capi;
+mod dbg;
+mod diff;
+mod gl;
+mod goexec;
 mod goldens;
 mod mutators;
 mod projdrv;
+mod reduce;
 mod projgen;
 mod props;
 mod runner;
@@ -31,6 +36,8 @@ fn main() {
         std::process::exit(2);
     }
     match args[1].as_str() {
+        "reduce" => std::process::exit(reduce::main(&args[2..])),
+        "debug-gen" => std::process::exit(dbg::main(&args[2..])),
         "goldens" => std::process::exit(goldens::main()),
         "observe" => {
             runner::install_panic_hook();
